@@ -435,19 +435,26 @@ def respell(kind, vec, n):
     return vec + "".join("/" + x for x in extra)
 
 
-def run_schedule(gi, size, plan, gran, hot=False):
+LAST_SPEC = [None]
+
+
+def run_schedule(gi, size, plan, gran, hot=False, spec=None):
     if hot and not _HOT[0]:
         heavy()                       # the thread that forks the workers' threads has a long past
         _HOT[0] = True
-    spec = GROUPS[gi][2]
-    if hot and size == "short":
+    given = spec is not None
+    spec = [tuple(x) for x in spec] if given else GROUPS[gi][2]
+    if hot and size == "short" and not given:
         # every execution constructs strings that are new to the process (whatever the library
         # remembers per string is cold for them although the process is hot)
         _FRESH[0] += 1
         spec = [(k, respell(k, v, _FRESH[0] * 7 + i)) for i, (k, v) in enumerate(spec)]
+    LAST_SPEC[0] = [list(x) for x in spec]
     bodies = make_bodies(spec, size)
     if (gi, size) not in _SEQ:
-        _SEQ[(gi, size)] = [("ok", b()) for b in bodies]
+        # the sequential baseline always comes from the group's own strings: the strings of a hot
+        # execution must be new to the process when the threads meet them
+        _SEQ[(gi, size)] = [("ok", b()) for b in make_bodies(GROUPS[gi][2], size)]
     prefix = os.path.join(core.REPO, "cvss") + os.sep
     ex = sched.Execution(bodies, plan, gran, prefix)
     got = ex.run()
@@ -471,6 +478,7 @@ def _sched_task(t):
     for plan in plans[lo:hi]:
         acc["n"] += 1
         why, ex = run_schedule(gi, size, plan, gran, hot)
+        used = LAST_SPEC[0]
         acc["calls"] += sum(ex.points)
         acc["cmp"] += len(ex.bodies)
         if why is None and acc["n"] % 50 == 1 and opseq.digest(opseq.constants_snapshot()) != base_tables:
@@ -481,7 +489,7 @@ def _sched_task(t):
             sweep.bad(acc, {"what": "%s, schedule %s (%s granularity)%s: %s" % (
                 GROUPS[gi][0], plan, gran, " in a process whose main thread first built 12,000 objects" if hot else "", why),
                             "kind": "schedule", "input": {"group": gi, "size": size, "plan": [list(p) for p in plan],
-                                                          "gran": gran, "hot": bool(hot)},
+                                                          "gran": gran, "hot": bool(hot), "spec": used if hot else None},
                             "deterministic": again[0] == again[1],
                             "signature": {"kind": "schedule"}})
         else:
@@ -1006,8 +1014,12 @@ def replay(case):
     if k == "schedule":
         i = case["input"]
         plan = [tuple(p) for p in i["plan"]]
-        a = run_schedule(i["group"], i.get("size", "long"), plan, i["gran"], i.get("hot", False))[0]
-        b = run_schedule(i["group"], i.get("size", "long"), plan, i["gran"], i.get("hot", False))[0]
+        a = run_schedule(i["group"], i.get("size", "long"), plan, i["gran"], i.get("hot", False), i.get("spec"))[0]
+        if i.get("hot"):
+            # a hot execution leaves its strings behind: the second run would not be the same experiment;
+            # the caller replays in two separate fresh processes anyway
+            return bool(a), a or "as sequential"
+        b = run_schedule(i["group"], i.get("size", "long"), plan, i["gran"], i.get("hot", False), i.get("spec"))[0]
         if (a is None) != (b is None):
             raise core.HarnessError("schedule replay is not deterministic")
         return bool(a), a or "as sequential"
